@@ -255,7 +255,7 @@ func genC18(t *rapid.T) c18Case {
 func init() { register("C18", checkC18) }
 
 func TestC18(t *testing.T) {
-	runProp(t, "C18", checkC18, nil, part[c18Case]{"hosts-lines", scale(8000, 80000), genC18})
+	runProp(t, "C18", checkC18, nil, part[c18Case]{"hosts-lines", scale(20000, 80000), genC18})
 }
 
 // FuzzC18 mutates the free parts of a hosts line (thorough tier).
